@@ -441,9 +441,25 @@ fn c07(c: &mut Ctx) {
         }
     }
     ps.extend(singles);
-    for p in &ps {
+    for (i, p) in ps.iter().enumerate() {
         c.pos(p);
         c.case("outcome", &format!("outcome {}", p.raw_text()));
+        // ... and of the positions its moves lead to, asked of the board the move produced: all moves of every
+        // eighth position and of every sparse one (where mates, stalemates and dead positions live), else the
+        // captures, promotions, castlings and en-passant captures
+        let raw = p.raw_text();
+        let men = (0..64).filter(|&s| p.board.get(owlchess::Coord::from_index(s)).is_occupied()).count();
+        for m in true_legal_moves(&p.board) {
+            if i % 8 == 0 || men <= 6 || posgen::is_interesting(&p.board, &m) {
+                c.case("outcomeafter", &format!("outcomeafter {} {}", raw, mv_fmt(&m)));
+            }
+        }
+    }
+    // a forced outcome that coincides with a draw by the clock or by material, reached by a quiet move
+    for (p, m, class) in posgen::quiet_finishers(&mut c.rng, if c.thorough { 400_000 } else { 60_000 }, if c.thorough { 40 } else { 6 }) {
+        c.pos(&p);
+        c.st.bump(&format!("finisher_{}", class));
+        c.case("outcomeafter", &format!("outcomeafter {} {}", p.raw_text(), mv_fmt(&m)));
     }
 }
 
@@ -521,14 +537,25 @@ fn san_grammar(b: &Board) -> Vec<String> {
             }
         }
     }
+    // files-only pawn captures: every ordered pair of files, adjacent or not
     for a in 0..8usize {
-        for bb in [a.wrapping_sub(1), a + 1] {
-            if bb < 8 {
+        for bb in 0..8usize {
+            if bb != a {
                 let (x, y) = (files.as_bytes()[a] as char, files.as_bytes()[bb] as char);
                 v.push(format!("{}{}", x, y));
-                v.push(format!("{}{}=Q", x, y));
-                v.push(format!("{}{}N", x, y));
+                if a.abs_diff(bb) == 1 || a.abs_diff(bb) == 7 {
+                    v.push(format!("{}{}=Q", x, y));
+                    v.push(format!("{}{}N", x, y));
+                }
             }
+        }
+    }
+    // captures "from" the far edge file (a wrap-around in square arithmetic would accept them)
+    for d in 0..64u8 {
+        let f = d % 8;
+        if f == 0 || f == 7 {
+            let sf = if f == 0 { 'h' } else { 'a' };
+            v.push(format!("{}x{}", sf, strgen::sq_name(d)));
         }
     }
     // piece moves to every square, with a capture sign where a man stands
@@ -558,11 +585,14 @@ fn c09(c: &mut Ctx) {
     for _ in 0..(n * 3 / 10) {
         ps.push(c.rng.pick(&f3).clone());
     }
+    ps.extend(posgen::f3_wrap());
     // single-group positions reached by a checking move: the check / mate mark of that move
     // depends on one generator group of has_legal_moves
     {
         let singles = posgen::f3i(&mut c.rng, if c.thorough { 40 } else { 10 }, if c.thorough { 2_000_000 } else { 400_000 });
-        for (p, m) in posgen::f3i_predecessors(&singles) {
+        let mut preds = posgen::f3i_predecessors(&singles);
+        preds.extend(posgen::ep_predecessors(&singles));
+        for (p, m) in preds {
             c.pos(&p);
             c.case("sanof", &format!("sanof {} {}", p.raw_text(), mv_fmt(&m)));
         }
@@ -632,7 +662,8 @@ fn c09(c: &mut Ctx) {
             c.case("sanof", &format!("sanof {} {}", raw, mv4_fmt(t)));
         }
         c.case("sanof", &format!("sanof {} 0.0.0.0", raw));
-        if pi < n_grammar {
+        let edge_ep = b.raw().ep_source.map(|s| s.file().index() == 0 || s.file().index() == 7).unwrap_or(false);
+        if pi < n_grammar || (edge_ep && p.fam == "F3a") {
             for s in san_grammar(b) {
                 strs.insert(s);
             }
@@ -842,6 +873,14 @@ fn c12(c: &mut Ctx) {
 fn c13(c: &mut Ctx) {
     let n = c.vol(300, 15.0);
     chains(c, n, Flavor::General);
+    // one position occurring six to nine times and then popped (possibly all the way): every pop must undo one push
+    for _ in 0..(n / 6).max(15) {
+        let p = start_pos(&mut c.rng, &mut c.pool);
+        c.pos(&p);
+        let s = chaingen::gen_deep_repeat(&mut c.rng, &p);
+        c.st.chain(&s.steps, s.final_len, &s.obs);
+        c.case("chain", &s.line);
+    }
     // equality probes: same moves from a different start; reversible cycles from saturated counters
     let m = c.vol(150, 15.0);
     for _ in 0..m {
@@ -856,6 +895,13 @@ fn c13(c: &mut Ctx) {
 fn c14(c: &mut Ctx) {
     let n = c.vol(300, 15.0);
     chains(c, n, Flavor::Repetition);
+    // a forced outcome that coincides with a draw by the clock or by material (the forced one must be reported)
+    for (p, m, class) in posgen::quiet_finishers(&mut c.rng, if c.thorough { 400_000 } else { 60_000 }, if c.thorough { 40 } else { 6 }) {
+        c.pos(&p);
+        c.st.bump(&format!("finisher_{}", class));
+        let s = chaingen::gen_finisher(&p, &m);
+        c.case("chain", &s.line);
+    }
     // one position occurring six to nine times, popped back across the thresholds, partly replayed
     for _ in 0..(n / 4).max(20) {
         let p = start_pos(&mut c.rng, &mut c.pool);
@@ -979,11 +1025,50 @@ fn c16(c: &mut Ctx) {
         c.case("attackers", &format!("attackers {}", raw));
         c.case("check", &format!("check {}", raw));
     }
+    // the same queries asked of the board object a move produced, and of that object after the move was taken back
+    // (captures, promotions, castlings, en passant, double steps; a few quiet moves; illegal semilegal moves: undo only)
+    let mut qs: Vec<Pos> = posgen::f3a(false);
+    qs.extend(posgen::f3c().0);
+    for p in ps.iter().take(c.vol(600, 20.0)) {
+        qs.push(p.clone());
+    }
+    for p in &qs {
+        let raw = p.raw_text();
+        let sm = semis(&p.board);
+        let mut quiet = 0;
+        for m in &sm {
+            let special = posgen::is_interesting(&p.board, m);
+            if special || (quiet < 2 && c.rng.chance(1, 6)) {
+                if !special {
+                    quiet += 1;
+                }
+                c.mv_stat(m);
+                c.case("queryafter", &format!("queryafter {} {}", raw, mv_fmt(m)));
+            }
+        }
+    }
 }
 
 fn c17(c: &mut Ctx) {
     let n = c.vol(300, 15.0);
     chains(c, n, Flavor::Print);
+    // games whose printed check / mate marks hang on ONE generator group of `has_legal_moves`: a checking move into a
+    // single-group position (incl. a double step answered only by en passant), then the only kind of reply
+    let singles = posgen::f3i(&mut c.rng, if c.thorough { 40 } else { 10 }, if c.thorough { 2_000_000 } else { 400_000 });
+    let mut lines: Vec<(Pos, Move)> = posgen::f3i_predecessors(&singles);
+    lines.extend(posgen::ep_predecessors(&singles));
+    c.st.add("single_group_lines", lines.len() as u64);
+    for (p, m) in lines.iter().take(if c.thorough { 400 } else { 80 }) {
+        c.pos(p);
+        let mut line = vec![*m];
+        if let Some(nb) = posgen::safe_make(&p.board, *m) {
+            if let Some(r) = true_legal_moves(&nb).first() {
+                line.push(*r);
+            }
+        }
+        let s = chaingen::gen_line(&mut c.rng, p, &line);
+        c.case("chain", &s.line);
+    }
 }
 
 fn c18(c: &mut Ctx) {
@@ -1070,6 +1155,55 @@ fn c19(c: &mut Ctx) {
         }
     }
     c.st.add("max_semilegal_moves", maxm as u64);
+    // the fixed-capacity list itself: the safe `gen_all_into` API appends, so two positions' moves can be sent into one
+    // `MoveList`; totals below, at and above its 256 slots (the checked push must trap, never write past the end)
+    {
+        let mut by_count: Vec<(usize, &posgen::Pos)> = ps.iter().map(|p| (posgen::semilegal_count(&p.board), p)).collect();
+        by_count.sort_by_key(|x| x.0);
+        let big: Vec<&(usize, &posgen::Pos)> = by_count.iter().rev().take(12).collect();
+        let mut emitted = 0usize;
+        for (i, a) in big.iter().enumerate() {
+            for b in big.iter().skip(i) {
+                if emitted < 40 {
+                    c.case("geninto2", &format!("geninto2 {} {}", a.1.raw_text(), b.1.raw_text()));
+                    emitted += 1;
+                }
+            }
+        }
+        // totals exactly at the boundary: for the largest position, partners with 256 - k, 256 - k ± 1 moves
+        if let Some(top) = by_count.last() {
+            for want in [256usize.saturating_sub(top.0), 257usize.saturating_sub(top.0), 255usize.saturating_sub(top.0)] {
+                if let Some(q) = by_count.iter().find(|x| x.0 == want) {
+                    c.case("geninto2", &format!("geninto2 {} {}", top.1.raw_text(), q.1.raw_text()));
+                    c.st.bump("geninto2_boundary_pairs");
+                }
+            }
+        }
+        for _ in 0..20 {
+            let a = c.rng.pick(&by_count).1;
+            let b = c.rng.pick(&by_count).1;
+            c.case("geninto2", &format!("geninto2 {} {}", a.raw_text(), b.raw_text()));
+        }
+    }
+    // square arithmetic behind the special pawn moves: every (en passant | double step, own pawn, destination) tuple in
+    // positions with an en-passant mark is offered to the safe make path — whatever `Move::new` and the semilegality
+    // test let through must not compute a victim / passed square off the board
+    for p in posgen::f3a(false).iter().step_by(7).take(if c.thorough { 200 } else { 40 }) {
+        c.pos(p);
+        let raw = p.raw_text();
+        let side_white = p.board.side() == owlchess::Color::White;
+        let pawn: u8 = if side_white { posgen::WP } else { posgen::BP };
+        for s in 0..64u8 {
+            if p.board.get(owlchess::Coord::from_index(s as usize)).index() as u8 != pawn {
+                continue;
+            }
+            for d in 0..64u8 {
+                for k in [5u8, 4] {
+                    c.case("makelike move", &format!("makelike {} move {}", raw, mv4_fmt((k, pawn, s, d))));
+                }
+            }
+        }
+    }
     // square arithmetic behind the move readers: every edge-rank pawn move / capture / promotion spelling (SAN and UCI),
     // on and off the ranks where it makes sense, read in a few positions of both colours — a source or victim square
     // computed from such a text must stay on the board (or the text be refused), never trap
